@@ -9,8 +9,8 @@ package trzsz
 import (
 	"bytes"
 	"encoding/json"
-	"sort"
 	"fmt"
+	"sort"
 	"strings"
 	"time"
 
